@@ -294,3 +294,11 @@ theorem word_length_le (L : Lang) (i : Nat) : (L.words.getD i []).length ≤ max
     rw [this]; exact Nat.zero_le _
 
 end Polyseed
+
+namespace Polyseed
+
+/-- every byte of every word and of the separator is ASCII, the separator is one space and the language does not compose -/
+def asciiCheck (L : Lang) : Bool :=
+  L.words.toList.all (fun w => w.all (fun b => Nat.blt b 128)) && decide (L.sep = [32]) && !L.compose
+
+end Polyseed
